@@ -111,7 +111,7 @@ def worker(args):
 
 def run(ctx):
     server_bin("rel")
-    nprog, mi = (20, 20) if ctx.quick else (1200, 60)
+    nprog, mi = (40, 25) if ctx.quick else (1200, 60)
     for p in pmap(worker, [("%s/%d" % (ctx.seed, i), nprog, mi) for i in range(NCPU)]): ctx.merge(p)
     ctx.rule = ("well-typed generated programs with variables used inside parentheses, after unary minus, inside index expressions, as arguments, in conditions and as assignment targets, "
                 "identifiers preceded by comments, equal names in several procedures; every sampled identifier: references, prepareRename, rename; for declared entities rename -> apply -> "
